@@ -170,14 +170,23 @@ def run(chk: Check) -> None:
             chk.sample({k: case[k] for k in ("text", "width", "semantic", "out")})
     chk.port_stat("spec: constructs intact / spacing on the line wrappers", ncase, nb)
     # ---- documents: tag lines alone, enclosed lists stay lists ----
-    nd = 250 * n
+    nd = 252 + 100 * n
     nbd = 0
     for i in range(nd):
-        tag = rng.choice(["{% field %}", "{% a x=1 %}", "<!-- block -->", "{# c #}"])
-        close = {"{% field %}": "{% /field %}", "{% a x=1 %}": "{% /a %}", "<!-- block -->": "<!-- /block -->", "{# c #}": "{# /c #}"}[tag]
-        kind = rng.choice(["list", "olist", "table", "prose"])
-        inner = {"list": "- one\n- two\n- three", "olist": "1. one\n2. two", "table": "| a | b |\n|---|---|\n| 1 | 2 |", "prose": "Some prose text here that is long enough to wrap."}[kind]
-        blank1, blank2 = rng.choice(["", "\n"]), rng.choice(["", "\n"])
+        # the first 252 documents go through every combination of tag style, enclosed block and blank lines; the others are drawn at random
+        TAGS2 = {"{% field %}": "{% /field %}", "{% a x=1 %}": "{% /a %}", "<!-- block -->": "<!-- /block -->", "{# c #}": "{# /c #}",
+                 "{% for x in xs %}": "{% endfor %}", "<!-- start -->": "<!-- end -->", "{{ open }}": "{{ close }}"}
+        INNER = {"list": "- one\n- two\n- three", "olist": "1. one\n2. two", "table": "| a | b |\n|---|---|\n| 1 | 2 |", "prose": "Some prose text here that is long enough to wrap.",
+                 "nested2": "- a\n  - nested item", "nested4": "- a\n    - nested item", "nested-tab": "- a\n\t- nested item", "nested-ol": "1. a\n   1. nested item",
+                 "wrapped-item": "- item one is long enough that it has to be wrapped\n  continued here"}
+        combos = [(t, k, b1, b2) for t in TAGS2 for k in INNER for b1 in ("", "\n") for b2 in ("", "\n")]
+        if i < len(combos):
+            tag, kind, blank1, blank2 = combos[i]
+        else:
+            tag, kind, blank1, blank2 = rng.choice(combos)
+        close = TAGS2[tag]
+        inner = INNER[kind]
+        kind = {"nested2": "list", "nested4": "list", "nested-tab": "list", "nested-ol": "olist", "wrapped-item": "list"}.get(kind, kind)
         doc = f"Intro text.\n\n{tag}\n{blank1}{inner}\n{blank2}{close}\n\nOutro.\n"
         o = dict(width=rng.choice([20, 40, 88]), semantic=rng.random() < 0.5)
         out = reformat_text(doc, **o)
